@@ -196,6 +196,7 @@ func randomDN(r *rand.Rand, uniq string) *dn {
 
 type certSpec struct {
 	serial     *big.Int
+	serialRaw  []byte // if set: INTEGER content octets written as they are (non-minimal encodings)
 	issuer     []byte // name DER
 	subject    []byte
 	notBefore  time.Time
@@ -259,7 +260,13 @@ func buildCertWith(s certSpec, signer signKey) []byte {
 	if !s.v1 {
 		parts = append(parts, dCtx(0, dInt64(2)))
 	}
-	parts = append(parts, dInt(s.serial), alg, s.issuer, dSeq(dTime(nb), dTime(na)), s.subject, s.spki)
+	serialDER := []byte(nil)
+	if s.serialRaw != nil {
+		serialDER = tlv(0x02, s.serialRaw)
+	} else {
+		serialDER = dInt(s.serial)
+	}
+	parts = append(parts, serialDER, alg, s.issuer, dSeq(dTime(nb), dTime(na)), s.subject, s.spki)
 	if !s.v1 {
 		var exts [][]byte
 		if s.ca {
